@@ -41,6 +41,12 @@ def gen_content(cls, n, seed):
         return bytes(r.getrandbits(8) for _ in range(n))
     if cls == "zeros":
         return bytes(n)
+    if cls == "sparse_tail":
+        # data followed by zeros up to a multiple of the 8 KiB I/O buffer: the
+        # file then ends in a pending hole (lseek + one-byte write in io_close)
+        n = max(8192, n - n % 8192)
+        head = gen_content("sparse", max(0, n - 8192 * (1 + seed % 4) - seed % 5000), seed + 1)
+        return head[:n - 8192] + bytes(n - len(head[:n - 8192]))
     if cls == "sparse":
         out = bytearray()
         while len(out) < n:
